@@ -445,17 +445,6 @@ class ConfigParser(object):
       # ... or not text at all.
       raise ConfigParserException("Could not read potential definition, it is not a text file: {}".format(e))
 
-    # Section names are compared without whitespace, like keys (the parser's section proxies are kept in a
-    # dictionary that drops it): '[Pair ]' after '[Pair]' or '[Table-Form:my tab]' after '[Table-Form:mytab]'
-    # would silently stand in for the earlier section.
-    seen = {}
-    for section_name in cp.sections():
-      normalised = "".join(section_name.split())
-      if normalised in seen:
-        raise ConfigParserDuplicateEntryException("Sections [{}] and [{}] differ only in whitespace: the section is defined twice".format(
-          seen[normalised], section_name))
-      seen[normalised] = section_name
-
     # (any iterable may be given: both are walked more than once below)
     overrides = list(overrides)
     additional = list(additional)
@@ -493,8 +482,21 @@ class ConfigParser(object):
         cp.add_section(override.section)
       self._set_value(cp, override)
 
+    self._check_section_names(cp)
     self._check_placeholders(cp)
     return cp
+
+  def _check_section_names(self, cp):
+    # Section names are compared without whitespace, like keys (the parser's section proxies are kept in a
+    # dictionary that drops it): '[Pair ]' after '[Pair]' or '[Table-Form:my tab]' after '[Table-Form:mytab]'
+    # - in the file or created by an added item - would silently stand in for the earlier section.
+    seen = {}
+    for section_name in cp.sections():
+      normalised = "".join(section_name.split())
+      if normalised in seen or normalised == cp.default_section:
+        raise ConfigParserDuplicateEntryException("Sections [{}] and [{}] differ only in whitespace: the section is defined twice".format(
+          seen.get(normalised, cp.default_section), section_name))
+      seen[normalised] = section_name
 
   def _check_placeholders(self, cp):
     """Every ${...} place-holder of the sections that make up a potential definition must resolve, whether or
